@@ -32,10 +32,12 @@ CONFLICT_PREFIX = {
 }
 CONFLICT_SPLIT = {'PatchParse': ['--src-prefix', '--dst-prefix'], 'NumstatParse': [], 'RawDiffParse': []}
 NEUTRAL = ['-U0', '--stat', 'HEAD', 'a.txt', '--cached']
-GLOBALS = [[], ['-C', None], ['-c', 'k=v'], ['--git-dir', None, '--no-pager']]
+GLOBALS = [[], ['-C', None], ['-c', 'k=v'], ['--git-dir', None, '--no-pager'],
+           # the user's own --no-pager FOLLOWED by further global options (what find_repository keeps for `git --no-pager commit`)
+           ['--no-pager', '-C', None], ['--no-pager', '-c', 'k=v'], ['-c', 'k=v', '--no-pager', '-C', None]]
 
 BOUNDS = {
-    'quick': 'K1: argv = globals (none | -C <2 symbolic bytes> | -c k=v | --git-dir <x> --no-pager) + `diff` + <=2 option tokens + optional (`--` + <=1 pathspec); option tokens range over every option the three profiles strip (exact, `=`-form with 1-2 symbolic bytes, split `--src-prefix X`), every option they pin, every pinned name extended by 1 symbolic byte (a different option that starts alike), neutral options, and fully symbolic 2-3 byte tokens; pathspec = a pinned option name or 2 symbolic bytes',
+    'quick': 'K1: argv = globals (none | -C <2 symbolic bytes> | -c k=v | --git-dir <x> --no-pager | --no-pager -C <x> | --no-pager -c k=v | -c k=v --no-pager -C <x>) + `diff` + <=2 option tokens + optional (`--` + <=1 pathspec); option tokens range over every option the three profiles strip (exact, `=`-form with 1-2 symbolic bytes, split `--src-prefix X`), every option they pin, every pinned name extended by 1 symbolic byte (a different option that starts alike), neutral options, and fully symbolic 2-3 byte tokens; pathspec = a pinned option name or 2 symbolic bytes',
     'thorough': 'as quick with 3 option tokens',
 }
 OUTSIDE = 'which internal call sites use which profile (call-site audit); options outside the listed dimensions (--word-diff, -R, --stat ...) that internal callers never pass; K3 discovery (resolve_command_base_dir / worktree_storage_ai_dir) — filesystem canonicalisation, not encoded; blame/notes display configuration (interpreted by git itself)'
@@ -92,6 +94,8 @@ def plan(tier, seed):
     for fn in CALLSITES:
         for np_ in (None, 0, 1, 2):
             tasks.append(('callsite', {'fn': fn, 'paths': np_}))
+    for fn in NUMSTAT_SITES:
+        tasks.append(('numstat_site', {'fn': fn}))
     tasks.append(('hooks', {}))
     return tasks
 
@@ -331,6 +335,47 @@ CALLSITES = {
 }
 
 
+REQUIRED_NUMSTAT = ['--numstat', '--no-ext-diff', '--no-textconv', '--no-color', '--no-relative', '--no-renames']
+# numstat readers: (function, arguments after the repository); they sum `added<TAB>deleted<TAB>path` rows, and rename
+# detection (diff.renames, on by default) turns a moved file into one `old => new` row with different counts
+NUMSTAT_SITES = {
+    'get_git_diff_stats': ('authorship::stats::get_git_diff_stats', 'sha+ignore'),
+    'get_git_diff_stats_for_range': ('authorship::range_authorship::get_git_diff_stats_for_range', 'range+ignore'),
+}
+
+
+def ob_numstat_site(h, shape):
+    """K3b: the numstat text git-ai sums is produced with rename detection and every other configuration-dependent
+    rendering switched off - judged on the argv that finally reaches git"""
+    P = h.P
+    fn, kind = NUMSTAT_SITES[shape['fn']]
+    P.state['c12_calls'] = []
+    h.inputs_struct = {'fn': shape['fn']}
+    repo = Agg('git::repository::Repository', [])
+    pats = VecV([])
+    args = [Ref(Cell(repo)), pystr('c0ffee')] + ([pystr('c1ffee')] if kind == 'range+ignore' else []) + [SliceRef(pats, 0, 0)]
+    try:
+        P.call_named(fn, args)
+    except Panic as e:
+        h.panic('K3-no-panic', e.msg)
+        return
+    calls = P.state['c12_calls']
+    h.require(len(calls) == 1, 'K3-one-git-call', '%d git calls' % len(calls))
+    if len(calls) != 1:
+        return
+    final = calls[0]
+    cut = len(final)
+    for i, t in enumerate(final):
+        if concrete_bytes(t) == b'--':
+            cut = i
+            break
+    opts = [bytes(concrete_bytes(t)).decode() if concrete_bytes(t) is not None else None for t in final[:cut]]
+    missing = [o for o in REQUIRED_NUMSTAT if o not in opts]
+    h.require(not missing, 'K3-numstat-call-neutralises-configuration',
+              '`git %s` as git-ai finally runs it lacks %r: the numbers it sums depend on the user\'s configuration' % (' '.join(x or '?' for x in opts), missing))
+    h.sample = h.witness()
+
+
 def ob_callsite(h, shape):
     """K3: the patches git-ai parses for added lines are produced with every configuration-dependent rendering
     neutralised — judged on the argv that finally reaches git (explicit arguments + profile pinning)"""
@@ -447,7 +492,7 @@ def ob_repo_root(h, shape):
     h.sample = h.witness()
 
 
-OBLIGATIONS = {'repo_root': ob_repo_root, 'pin': ob_pin, 'general': ob_general, 'hooks': ob_hooks, 'callsite': ob_callsite}
+OBLIGATIONS = {'numstat_site': ob_numstat_site, 'repo_root': ob_repo_root, 'pin': ob_pin, 'general': ob_general, 'hooks': ob_hooks, 'callsite': ob_callsite}
 
 
 def _replay_callsite(v, native):
@@ -525,7 +570,44 @@ def _replay_repo_root(v, native):
         subprocess.call(['rm', '-rf', tmp])
 
 
+def _replay_numstat_site(v, native):
+    """a real commit that moves a ten-line file and edits one line, in a repository whose configuration asks for
+    rename detection: the real reader must report what git reports with detection off (10 added, 10 deleted)"""
+    import os
+    import subprocess
+    import tempfile
+    if v['inputs'].get('fn') != 'get_git_diff_stats':
+        return {'reproduced': False, 'note': 'only the per-commit reader is reachable natively'}
+    tmp = tempfile.mkdtemp(prefix='vc12n')
+    env = dict(os.environ, GIT_AUTHOR_NAME='v', GIT_AUTHOR_EMAIL='v@v', GIT_COMMITTER_NAME='v', GIT_COMMITTER_EMAIL='v@v', HOME=tmp, GIT_CONFIG_NOSYSTEM='1')
+
+    def git(*a):
+        p = subprocess.run(['git'] + list(a), cwd=tmp, env=env, stdout=subprocess.PIPE, stderr=subprocess.PIPE)
+        if p.returncode != 0:
+            raise RuntimeError('git %r: %s' % (a, p.stderr.decode()))
+        return p.stdout.decode()
+    try:
+        git('init', '-q', '.')
+        git('config', 'diff.renames', 'true')
+        open(os.path.join(tmp, 'a.txt'), 'w').write(''.join('line %d\n' % i for i in range(10)))
+        git('add', '-A')
+        git('commit', '-q', '-m', 'a')
+        git('mv', 'a.txt', 'b.txt')
+        open(os.path.join(tmp, 'b.txt'), 'w').write(''.join('line %d\n' % i for i in range(9)) + 'changed\n')
+        git('add', '-A')
+        git('commit', '-q', '-m', 'move and edit')
+        sha = git('rev-parse', 'HEAD').strip()
+        r = native('c19_numstat', {'repo': tmp, 'sha': sha, 'ignore': [], 'expect_added': 10, 'expect_deleted': 10})
+        if 'panic' in r:
+            return {'reproduced': v['kind'] == 'panic', 'native': r}
+        return {'reproduced': v['obligation'] == 'K3-numstat-call-neutralises-configuration' and bool(r.get('failed')), 'native': r}
+    finally:
+        subprocess.call(['rm', '-rf', tmp])
+
+
 def replay(v, native):
+    if v['obligation'] == 'K3-numstat-call-neutralises-configuration' or (v['inputs'].get('fn') in NUMSTAT_SITES):
+        return _replay_numstat_site(v, native)
     if v['obligation'].startswith('K4-'):
         return _replay_repo_root(v, native)
     if 'fn' in v['inputs']:
